@@ -8,7 +8,9 @@ Translated (regenerated on every run):
   * bin_split: the guard `len(col) < bins`, the initial `start`, the bound `int(len(dm) * (i+1)/bins)`.
 Pinned (must be exactly the statement shown, otherwise the translation fails closed): the statement skeletons
 of BaseColumn._sortedrowid, NumericColumn._sortedrowid, operations.sort, the loop skeleton of bin_split,
-SortableSTR.__init__ and the module-level bindings of sortable / sortable_nan / sortable_none.
+SortableSTR.__init__, the module-level bindings of sortable / sortable_nan / sortable_none, and the bodies of
+DataMatrix._selectrowid, BaseColumn._getrowidkey and NumericColumn._getrowidkey (rows are fetched by row id, whole
+rows of _seq: series columns inherit the numeric variant).
 """
 import ast
 from py2coq import TranslationError, Env, tr_typed, find_function, body_nodoc, expect_same
@@ -147,6 +149,51 @@ def gen(repo):
                 continue
             if any(isinstance(n, ast.FunctionDef) and n.name == '_sortedrowid' for n in c.body):
                 raise TranslationError('%s overrides _sortedrowid' % cls)
+
+    # ---- how the sorted rows are fetched: by ROW ID (pinned; Model.Sort.getrowidkey / selectrowid mirror them) ----
+    # BaseColumn looks every id of the key up in its own row ids; NumericColumn (also inherited by _SeriesColumn, whose
+    # _seq is rows x depth) finds the same positions through a cached argsort + searchsorted and takes WHOLE ROWS of
+    # _seq by fancy indexing.  A positional shortcut, a flattening take() or a per-class override is refused here.
+    def pin_body(tree, qual, plist, stmts):
+        f = find_function(tree, qual)
+        params(f, plist)
+        body = body_nodoc(f)
+        if len(body) != len(stmts):
+            raise TranslationError('%s: %d statements, expected %d (pinned body changed)' % (qual, len(body), len(stmts)))
+        for node, src in zip(body, stmts):
+            expect_same(node, src, qual)
+
+    dmod = load(repo, 'datamatrix/_datamatrix/_datamatrix.py')
+    pin_body(dmod, 'DataMatrix._selectrowid', ['self', '_rowid'], [
+        'dm = DataMatrix(len(_rowid))',
+        "object.__setattr__(dm, u'_rowid', _rowid)",
+        "object.__setattr__(dm, u'_id', self._id)",
+        'for name, col in self._cols.items():\n'
+        '    dm._cols[name] = self._cols[name]._getrowidkey(_rowid)\n'
+        '    dm._cols[name]._datamatrix = dm',
+        'return dm'])
+    pin_body(base, 'BaseColumn._getrowidkey', ['self', 'key'], [
+        'col = self._empty_col()',
+        'col._rowid = key',
+        'col._seq = [self._seq[self._rowid.index(_rowid)] for _rowid in key]',
+        'return col'])
+    pin_body(num, 'NumericColumn._getrowidkey', ['self', 'key'], [
+        'col = self._empty_col()',
+        'orig_indices = self._rowid_argsort()',
+        'matching_indices = np.searchsorted(self._rowid[orig_indices], key)',
+        'selected_indices = orig_indices[matching_indices]',
+        'col._rowid = self._rowid[selected_indices]',
+        'col._seq = self._seq[selected_indices]',
+        'return col'])
+    series = load(repo, 'datamatrix/_datamatrix/_seriescolumn.py')
+    mixed = load(repo, 'datamatrix/_datamatrix/_mixedcolumn.py')
+    for mod in (num, series, mixed):
+        for c in mod.body:
+            if isinstance(c, ast.ClassDef) and c.name != 'NumericColumn':
+                for ch in c.body:
+                    if isinstance(ch, ast.FunctionDef) and ch.name in ('_getrowidkey', '_sortedrowid', '_rowid_argsort'):
+                        raise TranslationError('%s overrides %s' % (c.name, ch.name))
+    # (nothing is emitted for the pins: the generated text stays the same, a changed pin makes the generation fail)
 
     # ---- operations.sort and bin_split ---------------------------------------------------------
     ops = load(repo, 'datamatrix/operations.py')
